@@ -468,104 +468,198 @@ func retryOverflowReachable(c *hk.Ctx) {
 
 // retryEndToEnd drives the real Streamable client (WithRetry) against a scripted HTTP server and counts the attempts the
 // server sees for one tools/list call; the model predicts them from the transports' real error texts.
+type e2eStep struct {
+	st   int    // HTTP status of this attempt; 200 = a valid answer; 0 = read the request, then close the connection without answering
+	body string // body of a non-200 answer ("" = "scripted")
+}
+
+func e2eScripts() [][]e2eStep {
+	plain := [][]int{{200}, {503, 200}, {503, 404, 404, 404, 404}, {404, 200}, {500, 502, 503, 504, 200}, {429, 200}, {408, 409, 200}, {400}, {401, 200}, {503, 503, 503, 503, 503, 503},
+		{0, 200}, {503, 400, 200}, {502, 403, 403}, {200, 503}, {0, 0, 0, 0, 0, 0}, {503, 0, 200}}
+	var out [][]e2eStep
+	for _, p := range plain {
+		var sc []e2eStep
+		for _, st := range p {
+			sc = append(sc, e2eStep{st: st})
+		}
+		out = append(out, sc)
+	}
+	// non-transient 4xx answers whose BODY (chosen by the server / a gateway) mentions transient codes
+	for _, st := range []int{400, 403, 404} {
+		for _, body := range []string{"upstream said 503 Service Unavailable", "HTTP 502", "code 429 from backend", "status: 504 gateway", "error 500 things"} {
+			out = append(out, []e2eStep{{st, body}, {st, body}, {st, body}, {st, body}, {st, body}})
+		}
+	}
+	return out
+}
+
+// retryEndToEnd: the real clients (Streamable HTTP and legacy SSE) against a scripted server that counts the copies of one
+// request that reach it. The initialize exchange before it leaves an idle keep-alive connection, so a "0" step is a
+// connection dropped after the request was read on a REUSED connection (a replay below the retry loop would be counted).
 func retryEndToEnd(c *hk.Ctx) {
-	type script []int // HTTP statuses for successive attempts; 200 = a valid answer; 0 = close the connection without answering
-	scripts := []script{{200}, {503, 200}, {503, 404, 404, 404, 404}, {404, 200}, {500, 502, 503, 504, 200}, {429, 200}, {408, 409, 200}, {400}, {401, 200}, {503, 503, 503, 503, 503, 503},
-		{0, 200}, {503, 400, 200}, {502, 403, 403}, {200, 503}}
-	for _, mr := range []int{0, 1, 3} {
-		for _, sc := range scripts {
-			sc := sc
-			var mu sync.Mutex
-			attempts := 0
-			srv := httptest.NewServer(http.HandlerFunc(func(w http.ResponseWriter, r *http.Request) {
-				body, _ := io.ReadAll(r.Body)
-				var m map[string]any
-				json.Unmarshal(body, &m)
-				method, _ := m["method"].(string)
-				switch method {
-				case "initialize":
-					w.Header().Set("Content-Type", "application/json")
-					fmt.Fprintf(w, `{"jsonrpc":"2.0","id":%v,"result":{"protocolVersion":"2025-03-26","capabilities":{"tools":{}},"serverInfo":{"name":"s","version":"1"}}}`, jsonID(m["id"]))
-				case "tools/list":
-					mu.Lock()
-					i := attempts
-					attempts++
-					mu.Unlock()
-					st := 200
-					if i < len(sc) {
-						st = sc[i]
-					}
-					switch st {
-					case 200:
-						w.Header().Set("Content-Type", "application/json")
-						fmt.Fprintf(w, `{"jsonrpc":"2.0","id":%v,"result":{"tools":[]}}`, jsonID(m["id"]))
-					case 0:
-						if hj, ok := w.(http.Hijacker); ok {
-							cn, _, _ := hj.Hijack()
-							cn.Close()
-						}
-					default:
-						http.Error(w, "scripted", st)
-					}
-				default:
-					w.WriteHeader(202)
-				}
-			}))
-			opts := []mcp.ClientOption{mcp.WithClientLogger(hk.QuietLogger{}), mcp.WithClientGetSSEEnabled(false)}
-			if mr > 0 {
-				opts = append(opts, mcp.WithRetry(mcp.RetryConfig{MaxRetries: mr, InitialBackoff: time.Millisecond, BackoffFactor: 1, MaxBackoff: time.Millisecond}))
-			}
-			cl, err := mcp.NewClient(srv.URL, mcp.Implementation{Name: "v", Version: "1"}, opts...)
-			if err != nil {
-				srv.Close()
-				continue
-			}
-			ctx, cancel := context.WithTimeout(context.Background(), 10*time.Second)
-			_, ierr := cl.Initialize(ctx, &mcp.InitializeRequest{})
-			var callErr error
-			if ierr == nil {
-				_, callErr = cl.ListTools(ctx, &mcp.ListToolsRequest{})
-			}
-			cancel()
-			cl.Close()
-			srv.Close()
-			if ierr != nil {
-				c.Noise()
-				continue
-			}
-			// the op for the model: the script as error texts of the Streamable client
-			var texts []any
-			for _, st := range sc {
-				switch st {
-				case 200:
-					texts = append(texts, nil)
-				case 0:
-					texts = append(texts, "HTTP request failed: Post \"http://x\": EOF")
-				default:
-					texts = append(texts, fmt.Sprintf("HTTP request failed: status code %d", st))
-				}
-			}
-			var cj any
-			if mr > 0 {
-				cj = cfgJSON(mcp.VerifRetryConfig{MaxRetries: mr, InitialBackoff: time.Millisecond, BackoffFactor: 1, MaxBackoff: time.Millisecond})
-			}
-			res := "success"
-			if callErr != nil {
-				res = fmt.Sprintf("opErr:%d", attempts)
-			}
-			c.Emit(map[string]any{"c": "retry.e2e", "cfg": cj, "script": texts}, map[string]any{"attempts": attempts, "result": res}, attempts > 1, "e2e-streamable")
-			// model-free oracles
-			for i := 0; i+1 < attempts && i < len(sc); i++ {
-				st := sc[i]
-				if st == 200 || (st >= 400 && st < 500 && st != 408 && st != 409 && st != 429) {
-					c.Violate(hk.Violation{Fingerprint: fmt.Sprintf("retry.e2e:retried-after-%d", st), What: "the Streamable client re-attempted a request after a success or a non-transient 4xx answer",
-						Input: map[string]any{"max_retries": mr, "status_script": sc}, Observed: map[string]any{"attempts_seen_by_server": attempts}})
-				}
-			}
-			if attempts > mr+1 {
-				c.Violate(hk.Violation{Fingerprint: "retry.e2e:too-many-attempts", What: "more than MaxRetries+1 attempts reached the server", Input: map[string]any{"max_retries": mr, "status_script": sc}, Observed: attempts})
+	for _, kind := range []string{"streamable", "sse"} {
+		for _, mr := range []int{0, 1, 3} {
+			for _, sc := range e2eScripts() {
+				runE2E(c, kind, mr, sc)
 			}
 		}
+	}
+}
+
+func runE2E(c *hk.Ctx, kind string, mr int, sc []e2eStep) {
+	var mu sync.Mutex
+	attempts := 0
+	push := make(chan string, 16) // legacy SSE: answers go out on the event stream
+	answer := func(w http.ResponseWriter, id any, result string) {
+		msg := fmt.Sprintf(`{"jsonrpc":"2.0","id":%v,"result":%s}`, jsonID(id), result)
+		if kind == "sse" {
+			w.WriteHeader(202)
+			push <- msg
+			return
+		}
+		w.Header().Set("Content-Type", "application/json")
+		fmt.Fprint(w, msg)
+	}
+	mux := http.NewServeMux()
+	post := func(w http.ResponseWriter, r *http.Request) {
+		body, _ := io.ReadAll(r.Body)
+		var m map[string]any
+		json.Unmarshal(body, &m)
+		method, _ := m["method"].(string)
+		switch method {
+		case "initialize":
+			answer(w, m["id"], `{"protocolVersion":"2025-03-26","capabilities":{"tools":{}},"serverInfo":{"name":"s","version":"1"}}`)
+		case "tools/list":
+			mu.Lock()
+			i := attempts
+			attempts++
+			mu.Unlock()
+			step := e2eStep{st: 200}
+			if i < len(sc) {
+				step = sc[i]
+			}
+			switch step.st {
+			case 200:
+				answer(w, m["id"], `{"tools":[]}`)
+			case 0:
+				if hj, ok := w.(http.Hijacker); ok {
+					cn, _, _ := hj.Hijack()
+					cn.Close()
+				}
+			default:
+				b := step.body
+				if b == "" {
+					b = "scripted"
+				}
+				http.Error(w, b, step.st)
+			}
+		default:
+			w.WriteHeader(202)
+		}
+	}
+	if kind == "sse" {
+		mux.HandleFunc("/sse", func(w http.ResponseWriter, r *http.Request) {
+			w.Header().Set("Content-Type", "text/event-stream")
+			w.WriteHeader(200)
+			fl, _ := w.(http.Flusher)
+			fmt.Fprint(w, "event: endpoint\ndata: /message?sessionId=s1\n\n")
+			fl.Flush()
+			for {
+				select {
+				case msg := <-push:
+					fmt.Fprintf(w, "event: message\ndata: %s\n\n", msg)
+					fl.Flush()
+				case <-r.Context().Done():
+					return
+				}
+			}
+		})
+		mux.HandleFunc("/message", post)
+	} else {
+		mux.HandleFunc("/", post)
+	}
+	srv := httptest.NewServer(mux)
+	defer srv.Close()
+	opts := []mcp.ClientOption{mcp.WithClientLogger(hk.QuietLogger{}), mcp.WithClientGetSSEEnabled(false)}
+	if mr > 0 {
+		opts = append(opts, mcp.WithRetry(mcp.RetryConfig{MaxRetries: mr, InitialBackoff: time.Millisecond, BackoffFactor: 1, MaxBackoff: time.Millisecond}))
+	}
+	var cl *mcp.Client
+	var err error
+	if kind == "sse" {
+		cl, err = mcp.NewSSEClient(srv.URL+"/sse", mcp.Implementation{Name: "v", Version: "1"}, opts...)
+	} else {
+		cl, err = mcp.NewClient(srv.URL, mcp.Implementation{Name: "v", Version: "1"}, opts...)
+	}
+	if err != nil {
+		return
+	}
+	ctx, cancel := context.WithTimeout(context.Background(), 10*time.Second)
+	_, ierr := cl.Initialize(ctx, &mcp.InitializeRequest{})
+	var callErr error
+	if ierr == nil {
+		_, callErr = cl.ListTools(ctx, &mcp.ListToolsRequest{})
+	}
+	cancel()
+	cl.Close()
+	srv.CloseClientConnections()
+	if ierr != nil {
+		c.Noise()
+		return
+	}
+	mu.Lock()
+	seen := attempts
+	mu.Unlock()
+	// the op for the model: the script as the error texts this client builds
+	var texts []any
+	var sts []any
+	for _, step := range sc {
+		sts = append(sts, map[string]any{"status": step.st, "body": step.body})
+		switch step.st {
+		case 200:
+			texts = append(texts, nil)
+		case 0:
+			texts = append(texts, "HTTP request failed: Post \"http://x\": EOF")
+		default:
+			if kind == "sse" {
+				b := step.body
+				if b == "" {
+					b = "scripted"
+				}
+				texts = append(texts, fmt.Sprintf("HTTP request failed: status code %d, body: %s\n", step.st, b))
+			} else {
+				texts = append(texts, fmt.Sprintf("HTTP request failed: status code %d", step.st))
+			}
+		}
+	}
+	var cj any
+	if mr > 0 {
+		cj = cfgJSON(mcp.VerifRetryConfig{MaxRetries: mr, InitialBackoff: time.Millisecond, BackoffFactor: 1, MaxBackoff: time.Millisecond})
+	}
+	res := "success"
+	if callErr != nil {
+		res = fmt.Sprintf("opErr:%d", seen)
+	}
+	c.Emit(map[string]any{"c": "retry.e2e", "cfg": cj, "script": texts}, map[string]any{"attempts": seen, "result": res}, seen > 1, "e2e-"+kind)
+	// model-free oracles
+	pre := "retry.e2e"
+	name := "Streamable"
+	if kind == "sse" {
+		pre, name = "retry.e2e-sse", "legacy SSE"
+	}
+	for i := 0; i+1 < seen && i < len(sc); i++ {
+		st := sc[i].st
+		if st == 200 || (st >= 400 && st < 500 && st != 408 && st != 409 && st != 429) {
+			fp := fmt.Sprintf("%s:retried-after-%d", pre, st)
+			if sc[i].body != "" {
+				fp += ":body-mentions-transient-code"
+			}
+			c.Violate(hk.Violation{Fingerprint: fp, What: "the " + name + " client re-attempted a request after a success or a non-transient 4xx answer",
+				Input: map[string]any{"max_retries": mr, "script": sts}, Observed: map[string]any{"attempts_seen_by_server": seen}})
+		}
+	}
+	if seen > mr+1 {
+		c.Violate(hk.Violation{Fingerprint: pre + ":too-many-attempts", What: "more than MaxRetries+1 copies of one request reached the server (" + name + " client)", Input: map[string]any{"max_retries": mr, "script": sts}, Observed: seen})
 	}
 }
 
